@@ -162,6 +162,73 @@ pub fn prop(tier: Tier, seed: u64) -> Prop {
         .isolated(),
     );
 
+    // ---- Nearest / SuperSampling pre-step: every size pair (the row and column stepping is
+    //      implemented several times: generic trait default, TypedImageRef specialisation, x table)
+    let nmax: u32 = tier.pick(16, 24);
+    let dims2 = vec![nmax as u64, nmax as u64, 2, 3];
+    let (d2, b2) = (dims2.clone(), bes.clone());
+    p.spaces.push(
+        Space::new("Nearest and SuperSampling pre-step: every (n_in, n_out) pair per axis x every source container kind", product(&dims2), move |idx, ctx| {
+            let mut d = [0usize; 4];
+            decode(idx, &d2, &mut d);
+            let (n_in, n_out, axis_y, variant) = (d[0] as u32 + 1, d[1] as u32 + 1, d[2] == 1, d[3]);
+            let (sw, sh, dw, dh) = if axis_y { (3, n_in, 3, n_out) } else { (n_in, 2, n_out, 2) };
+            let alg = match variant {
+                0 | 1 => Alg::Nearest,
+                _ => Alg::SS(F::Box, 1),
+            };
+            ctx.sample(|| json!({"src": [sw, sh], "dst": [dw, dh], "alg": format!("{:?}", alg), "fractional_crop": variant == 1, "source_kinds": "all 11"}));
+            if ctx.describe_only {
+                return;
+            }
+            let k = idx as usize;
+            let pt = TYPED_PTS[k % TYPED_PTS.len()];
+            let src = crate::props::c11::tag_image(pt, sw, sh);
+            let be = b2[k % b2.len()];
+            let mut rz = new_resizer(be);
+            let mut o = Opts::new(alg);
+            if variant == 1 {
+                if axis_y && sh >= 2 {
+                    o.cy = Some(Crop1 { start: 0.5, len: sh as f64 - 1.0 });
+                } else if !axis_y && sw >= 2 {
+                    o.cx = Some(Crop1 { start: 0.25, len: sw as f64 - 0.5 });
+                }
+            }
+            let fo = o.to_fir(sw, sh);
+            let place = PLACES[k % PLACES.len()];
+            let mut base: Option<Raw> = None;
+            let mut combos: Vec<(bool, SrcK)> = DYN_SRC.iter().map(|s| (false, *s)).collect();
+            combos.extend(TYPED_SRC.iter().map(|s| (true, *s)));
+            for (typed, sk) in combos {
+                let mut op = OpSpec::Resize(&mut rz, fo);
+                let dk = if typed { DstK::TSlice } else { DstK::ImgSlice };
+                let (out, _) = run_one(&mut op, typed, sk, dk, &src, pt, dw, dh, place, Place::NONE, 0, Mem::FencedEnd, 0x5A);
+                ctx.ops += 1;
+                if out.result.is_err() {
+                    continue;
+                }
+                match &base {
+                    None => base = Some(out.rect),
+                    Some(b) => {
+                        ctx.traces += 1;
+                        if b.bytes() != out.rect.bytes() {
+                            ctx.violation(format!("C13|{}|{:?}|result differs from the ImageRef baseline", crate::props::c01::alg_class(alg), sk), || {
+                                json!({"src": [sw, sh], "dst": [dw, dh], "alg": format!("{:?}", alg), "fractional_crop": variant == 1, "pixel": format!("{:?}", pt), "typed_entry": typed, "placement": format!("{:?}", place),
+                                       "baseline": b.bytes().iter().take(40).collect::<Vec<_>>(), "got": out.rect.bytes().iter().take(40).collect::<Vec<_>>()})
+                            });
+                        }
+                    }
+                }
+                ctx.class(mix(mix(pt.idx() as u64 + 5000, sk as u64), mix((n_in % 8) as u64 * 8 + (n_out % 8) as u64, d[2] as u64 * 4 + d[3] as u64)));
+            }
+            if let Some(b) = base {
+                ctx.outcome(fnv(b.bytes()));
+            }
+            ctx.nontrivial += 1;
+        })
+        .isolated(),
+    );
+
     p.rule = "14 operations (7 resize variants: Nearest / Lanczos3 / Box / SuperSampling / Interpolation with alpha on/off and fractional crops; alpha multiply/divide two-image and in place; forward map; backward map in place; component conversion) x size pairs x 8 placements x 13 pixel types x back-ends, each executed through every source container kind (owned Image, borrowed slice, ImageRef::new / from_pixels, CroppedImage of a reference / of an owned parent, TypedImageRef, owned TypedImage, TypedCroppedImage from_ref / new / nested) and every destination kind (owned, Vec/slice with spare capacity, exact slice, CroppedImageMut, typed slice / spare / from_buffer, TypedCroppedImageMut new / from_ref / nested) and both entry points, in buffers that end at a guard page; the destination rectangle must be byte-identical to the ImageRef -> borrowed-slice baseline".into();
     p.bounds = json!({"size_pairs": sizes.len(), "placements": PLACES.len()});
     p.assumptions = vec![
